@@ -8,7 +8,9 @@ Declarative expectations only (no merge code of the model is used here):
     target's host;
   * method, request-URI, body bytes unchanged; TLS iff `ssl`; everything arrives at the target;
   * connections: ≤ instances with keep-alive, = requests without (judged when neither the ammo nor the option
-    defines a `Connection` header: an explicit `Connection: close` is the ammo's own demand).
+    defines a `Connection` header: an explicit `Connection: close` is the ammo's own demand — and when the gun's
+    configuration itself does not stand against reuse: `reuseExpected`, stated on the OPTIONS AS GIVEN and the
+    documented defaults of docs/eng/http-generator.md, not on the model's transport).
 Headers the transport manages on its own (Content-Length, Transfer-Encoding, Connection, Trailer, a defaulted
 User-Agent) are not compared; User-Agent is single-valued in net/http (first value is written).
 -/
@@ -158,12 +160,42 @@ def judgeAll : List Want → List Rec → String
   | w :: ws, r :: rs => let v := judgeReq w r; if v = "" then judgeAll ws rs else v
   | _, _ => "count:number of recorded requests"
 
+/-- the gun options that the documentation says govern idle connections, as given in the config (`none` = not given):
+`idle-conn-timeout`, `response-header-timeout` (ns), `max-idle-conns`, `max-idle-conns-per-host` -/
+structure ReuseOpts where
+  idle : Option Int := none
+  rht : Option Int := none
+  mic : Option Int := none
+  mich : Option Int := none
+  deriving Repr
+
+/-- docs/eng/http-generator.md: "idle-conn-timeout … Zero means no limit. Default: 90s" -/
+def docIdleConnTimeout : Int := 90 * 1000000000
+
+/-- the configuration and the timing of the case leave the property's promise standing: no pause of an instance
+reaches the idle timeout in force (the given one, else the documented 90s; ≤ 0 = no limit), no answer takes as long
+as a given response-header-timeout, and no idle limit is negative. Otherwise more connections are the operator's
+own demand, like `Connection: close` of the ammo. `tls-handshake-timeout` and the other options do not occur here. -/
+def reuseExpected (o : ReuseOpts) (maxPause maxDelay : Nat) : Bool :=
+  let idle := o.idle.getD docIdleConnTimeout
+  (decide (idle ≤ 0) || decide ((maxPause : Int) < idle)) &&
+  (match o.rht with
+   | none => true
+   | some v => decide (v ≤ 0) || decide ((maxDelay : Int) < v)) &&
+  (match o.mic with
+   | none => true
+   | some v => decide (0 ≤ v)) &&
+  (match o.mich with
+   | none => true
+   | some v => decide (0 ≤ v))
+
 /-- the entry or the option says something about `Connection` -/
 def mentionsConnection (w : Want) : Bool :=
   (w.lines.any fun kv => canon kv.1 = connKey) || (w.conf.any fun kv => canon kv.1 = connKey)
 
-/-- verdict for a well-formed case. `match_` = the target kind (plain/TLS) fits the ssl option. -/
-def judge (wants : List Want) (match_ : Bool) (ka : Bool) (inst : Nat) (o : Obs) : String :=
+/-- verdict for a well-formed case. `match_` = the target kind (plain/TLS) fits the ssl option; `reuse` =
+`reuseExpected` of the case's options and timing. -/
+def judge (wants : List Want) (match_ : Bool) (ka : Bool) (inst : Nat) (o : Obs) (reuse : Bool := true) : String :=
   if !match_ then
     (if o.n = 0 then "ok" else "fail:scheme:request arrived although the scheme does not fit the target")
   else if o.decoy ≠ 0 then "fail:target:a request reached a host that is not the gun's target (redirect followed)"
@@ -175,6 +207,7 @@ def judge (wants : List Want) (match_ : Bool) (ka : Bool) (inst : Nat) (o : Obs)
     match judgeAll wants o.reqs with
     | "" =>
       if wants.any mentionsConnection then "ok"
+      else if ka ∧ !reuse then "ok"
       else if ka ∧ o.conns > inst then s!"fail:conns:{o.conns} connections for {inst} instances with keep-alive"
       else if !ka ∧ o.conns ≠ o.n then s!"fail:conns:{o.conns} connections for {o.n} requests without keep-alive"
       else "ok"
